@@ -319,6 +319,8 @@ def check_no_mutation(run, A):
 
 def check(run):
     A = run.A
+    from ..opt import check_axisless_squeeze
+    check_axisless_squeeze(run, A, ('pb_bss.extraction.mask_module',))
     from ..opt import check_optional_truthiness, check_params_reach, check_forwarding, check_stale_loop_variables, check_argument_names
     check_argument_names(run, A, ('pb_bss.extraction.mask_module',))
     check_stale_loop_variables(run, A, ('pb_bss.extraction.mask_module',))
